@@ -104,7 +104,7 @@ theorem C16_truncated_idempotent (s : State σ) (d : Bytes) (a : Addr) (p : Nat)
         unfold process
         simp only [hv, hqy, Bool.not_true, Bool.false_eq_true, ↓reduceIte]
         by_cases he : H.hasEntries s.down = true
-        · simp only [he, Bool.not_true, Bool.false_eq_true, ↓reduceIte, queryOrDefer, htc]
+        · simp only [he, Bool.not_true, Bool.false_eq_true, ↓reduceIte, queryOrDefer, htc, deferred_same_packet_iff]
           by_cases hany : ((alGet a s.deferred).getD []).any (fun q => q.data == d) = true
           · simp [hany, he]
           · simp [hany, he, alGet_alSet]
@@ -332,6 +332,195 @@ theorem C16_history_qu_partial (ok : ω → Bool) (hN : SecondCopyNeutral H ok) 
             subst hr
             simp [iherr e' hrest]
           | ok w => simp [hrest, pure, Except.pure] at hr
+
+/-! ### per history: the form the real handler can be instantiated with
+
+`SecondCopyNeutral` / `QueryRepeatNeutral` quantify over **every** state and packet; finding D11 is a state of the real
+`QueryHandler` at which they fail, so `C16_history_qu_partial` says nothing about `/repo` — not even for histories that never come
+near D11.  The statements below ask the same of the arrivals of *one history* only, each at the state in which it occurs: exactly
+what the harness observes on the real handler at every duplicated QU query (`second_copy_findings`: downstream state unchanged, only
+unicast answers to the querier). -/
+
+/-- one arrival: from the handler-level condition **at the state the arrival finds** to `NeutralAt` — every case of the second
+copy (oversize, suppressed first copy, invalid, registry empty, truncated → found in `_deferred`, answered → deferred packets
+already popped and timers already cancelled) -/
+theorem C16_second_copy_neutral_at (ok : ω → Bool) (s : State σ) (d : Bytes) (a : Addr) (p : Nat) (now : Ms) (r : Nat)
+    (hqu : quQuery H d = true)
+    (hH : (H.parse d).valid = true → (H.parse d).truncated = false → H.hasEntries s.down = true →
+      QueryRepeatNeutralAt H ok s.down ((alGet a s.deferred).getD []) (⟨d, now⟩ : Packet) a p) :
+    NeutralAt H ok s d a p now r := by
+  have hqu' := hqu
+  simp only [quQuery, Bool.and_eq_true] at hqu'
+  obtain ⟨hq, hu⟩ := hqu'
+  unfold NeutralAt
+  by_cases hov : Gen.Listener.oversize (d.length : Int) = true
+  · simp [recv, hov]
+  by_cases hg : guardHit s d now = true
+  · simp [recv, hov, hg]
+  have hov' : Gen.Listener.oversize (d.length : Int) = false := by simpa using hov
+  have hg' : guardHit s d now = false := by simpa using hg
+  rw [C16_qu_reprocessed H s d a p now r r hov' hg' hqu]
+  have hs1 : (recv H s d a p now r).1 = (process H s d a p now r).1 := by simp [recv, hov', hg']
+  rw [hs1]
+  by_cases hv : (H.parse d).valid = true
+  · by_cases he : H.hasEntries s.down = true
+    · by_cases htc : (H.parse d).truncated = true
+      · have := C16_truncated_idempotent H s d a p now r r hv hq htc
+        rw [C16_qu_reprocessed H s d a p now r r hov' hg' hqu, hs1] at this
+        exact ⟨this.1, by rw [this.2]; simp⟩
+      · have htc' : (H.parse d).truncated = false := by simpa using htc
+        rw [process_answered H s d a p now r hv hq htc' he]
+        simp only
+        by_cases he2 : H.hasEntries (H.onQuery s.down ((alGet a s.deferred).getD [] ++ [(⟨d, now⟩ : Packet)]) a p).1 = true
+        · obtain ⟨n1, n2⟩ := hH hv htc' he
+          rw [process_answered H _ d a p now r hv hq htc' he2]
+          simp only [alGet_alErase_self, Option.getD_none, List.nil_append, alErase_idem]
+          exact ⟨by rw [n1], n2⟩
+        · simp [process, hv, hq, he2]
+    · simp [process, hv, hq, he]
+  · simp [process, hv]
+
+/-- the ∀-state hypothesis implies the per-history one, for every history -/
+theorem NeutralAlong_of_secondCopyNeutral (ok : ω → Bool) (hN : SecondCopyNeutral H ok) (h : List (Block β)) :
+    ∀ s : State σ, NeutralAlong H ok s h := by
+  induction h with
+  | nil => intro s; trivial
+  | cons b rest ih =>
+    intro s
+    cases b with
+    | recv d a p n r => exact ⟨fun hq => hN s d a p n r r hq, ih _⟩
+    | tcFire a =>
+      simp only [NeutralAlong]
+      split
+      · exact ih _
+      · trivial
+    | other x =>
+      simp only [NeutralAlong]
+      split
+      · exact ih _
+      · trivial
+
+/-- **C16, whole histories, QU queries included — per history.**  For every handler, every state and every history — QU
+queries, TC timers, any other blocks — *whose own QU arrivals are each neutral at the state in which they occur* (`NeutralAlong`):
+duplicating every arrival yields the **same final state**, the same error if any, and the same outputs except for extra outputs
+that pass `ok` (for the real responder: unicast answers to the querier).  `_partial`: for a history that contains a QU arrival in
+the class of finding D11 / D11b the hypothesis fails at that arrival (the second answer multicasts / queues again:
+`C16_qu_full_refuted`); for every other history of the real handler it is what the harness checks at every duplicated QU query. -/
+theorem C16_history_qu_at_partial (ok : ω → Bool) (h : List (Block β)) :
+    ∀ s : State σ, NeutralAlong H ok s h →
+      (∀ s1 o1, run H s h = .ok (s1, o1) → ∃ o2, run H s (dupAll h) = .ok (s1, o2) ∧ ExtraOf ok o1 o2) ∧
+      (∀ e, run H s h = .error e → run H s (dupAll h) = .error e) := by
+  induction h with
+  | nil =>
+    intro s _
+    exact ⟨fun s1 o1 hr => ⟨o1, hr, by simp only [run, Except.ok.injEq, Prod.mk.injEq] at hr; rw [← hr.2]; exact .nil⟩,
+      fun e hr => by simp [run] at hr⟩
+  | cons b rest ih =>
+    intro s hn
+    cases b with
+    | recv d a p n r =>
+      obtain ⟨hn1, hn2⟩ := hn
+      have second : (recv H (recv H s d a p n r).1 d a p n r).1 = (recv H s d a p n r).1 ∧
+          ∀ x ∈ (recv H (recv H s d a p n r).1 d a p n r).2.1, ok x = true := by
+        by_cases hq : quQuery H d = true
+        · exact hn1 hq
+        · obtain ⟨e1, e2⟩ := C16_idempotent H s d a p n r r (by simpa using hq)
+          exact ⟨e1, by rw [e2]; simp⟩
+      obtain ⟨ihok, iherr⟩ := ih (recv H s d a p n r).1 hn2
+      simp only [dupAll, run, step, bind, Except.bind, pure, Except.pure]
+      rw [second.1]
+      constructor
+      · intro s1 o1 hr
+        cases hrest : run H (recv H s d a p n r).1 rest with
+        | error e => simp [hrest] at hr
+        | ok v =>
+          obtain ⟨s2, o2⟩ := v
+          simp only [hrest, Except.ok.injEq, Prod.mk.injEq] at hr
+          obtain ⟨rfl, rfl⟩ := hr
+          obtain ⟨o3, h3, x3⟩ := ihok s2 o2 hrest
+          refine ⟨(recv H s d a p n r).2.1 ++ ((recv H (recv H s d a p n r).1 d a p n r).2.1 ++ o3), by simp [h3], ?_⟩
+          exact ExtraOf.append ok (ExtraOf.refl ok _) (ExtraOf.extras ok _ second.2 x3)
+      · intro e hr
+        cases hrest : run H (recv H s d a p n r).1 rest with
+        | error e' =>
+          simp only [hrest, Except.error.injEq] at hr
+          subst hr
+          simp [iherr e' hrest]
+        | ok v => simp [hrest] at hr
+    | tcFire a =>
+      simp only [dupAll, run, bind, Except.bind]
+      simp only [NeutralAlong] at hn
+      cases hst : step H s (.tcFire a) with
+      | error e => exact ⟨fun _ _ hr => by simp at hr, fun e' hr => hr⟩
+      | ok v =>
+        rw [hst] at hn
+        obtain ⟨ihok, iherr⟩ := ih v.1 hn
+        constructor
+        · intro s1 o1 hr
+          cases hrest : run H v.1 rest with
+          | error e => simp [hrest] at hr
+          | ok w =>
+            simp only [hrest, pure, Except.pure, Except.ok.injEq, Prod.mk.injEq] at hr
+            obtain ⟨rfl, rfl⟩ := hr
+            obtain ⟨o3, h3, x3⟩ := ihok w.1 w.2 (by simp [hrest])
+            exact ⟨_, by simp [h3, pure, Except.pure], ExtraOf.append ok (ExtraOf.refl ok _) x3⟩
+        · intro e hr
+          cases hrest : run H v.1 rest with
+          | error e' =>
+            simp only [hrest, Except.error.injEq] at hr
+            subst hr
+            simp [iherr e' hrest]
+          | ok w => simp [hrest, pure, Except.pure] at hr
+    | other x =>
+      simp only [dupAll, run, bind, Except.bind]
+      simp only [NeutralAlong] at hn
+      cases hst : step H s (.other x) with
+      | error e => exact ⟨fun _ _ hr => by simp at hr, fun e' hr => hr⟩
+      | ok v =>
+        rw [hst] at hn
+        obtain ⟨ihok, iherr⟩ := ih v.1 hn
+        constructor
+        · intro s1 o1 hr
+          cases hrest : run H v.1 rest with
+          | error e => simp [hrest] at hr
+          | ok w =>
+            simp only [hrest, pure, Except.pure, Except.ok.injEq, Prod.mk.injEq] at hr
+            obtain ⟨rfl, rfl⟩ := hr
+            obtain ⟨o3, h3, x3⟩ := ihok w.1 w.2 (by simp [hrest])
+            exact ⟨_, by simp [h3, pure, Except.pure], ExtraOf.append ok (ExtraOf.refl ok _) x3⟩
+        · intro e hr
+          cases hrest : run H v.1 rest with
+          | error e' =>
+            simp only [hrest, Except.error.injEq] at hr
+            subst hr
+            simp [iherr e' hrest]
+          | ok w => simp [hrest, pure, Except.pure] at hr
+
+/-- the per-history hypothesis is met by a handler that is **not** neutral at every state — like the real one: `d11H` answers
+by unicast once the record has been heard on the link (downstream state `n > 0`: "recent"), by multicast before (`n = 0`: the D11
+state — and again for the second copy, nothing having been heard in between).
+A history whose QU query arrives after a response has been heard is `NeutralAlong`; the same query arriving first is not — and
+`SecondCopyNeutral` fails for this handler, so `C16_history_qu_partial` says nothing about it while `C16_history_qu_at_partial` does. -/
+def d11H : Handler Nat String Unit where
+  parse d := { valid := true, isQuery := d.head? == some 0, truncated := false, hasQU := d.head? == some 0 }
+  onResponse n _ := (n + 1, [])
+  hasEntries _ := true
+  onQuery n _ _ _ := if n = 0 then (0, ["mcast"]) else (n, ["ucast"])
+  other n _ := (n, [])
+
+example : NeutralAlong d11H (fun o => o == "ucast") (State.init 0) [.recv [1] "a" 5353 5 0, .recv [0] "b" 5353 2000 0] := by
+  refine ⟨fun h => absurd h (by decide), ?_, trivial⟩
+  intro _
+  exact ⟨by decide, by decide⟩
+example : ¬ NeutralAlong d11H (fun o => o == "ucast") (State.init 0) [.recv [0] "b" 5353 2000 0] := by
+  intro h
+  exact absurd ((h.1 (by decide)).2 "mcast" (by decide)) (by decide)
+example : ¬ SecondCopyNeutral d11H (fun o => o == "ucast") := by
+  intro h
+  exact absurd ((h (State.init 0) [0] "b" 5353 2000 0 0 (by decide)).2 "mcast" (by decide)) (by decide)
+-- and the conclusion is not vacuous there: the duplicated history ends in the same state with one extra unicast answer
+example : (run d11H (State.init 0) (dupAll [.recv [1] "a" 5353 5 0, .recv [0] "b" 5353 2000 0])).toOption.map (·.2) = some ["ucast", "ucast"] := by decide
+example : (run d11H (State.init 0) [.recv [1] "a" 5353 5 0, .recv [0] "b" 5353 2000 0]).toOption.map (·.2) = some ["ucast"] := by decide
 
 /-! ## What the re-processed QU query emits (`_QueryResponse` routing)
 
